@@ -18,6 +18,7 @@ def P(qr, qw, tr, tw, **kw):
 PLAN = {
     "C01": P(6000, 75, 200000, 900),
     "C02": P(5000, 75, 150000, 900),
+    "C10": P(1200, 100, 30000, 1200, chunk=150),
     "C09": P(1200, 100, 30000, 1200, chunk=150),
     "C08": P(2500, 90, 60000, 900),
     "C07": P(1500, 100, 30000, 1200, chunk=150),
@@ -27,6 +28,11 @@ PLAN = {
 }
 
 LEVELS = {
+    "C10": {"level": "fault_enumeration", "rule": RULE + "; leftovers are produced by real uploads killed at a tape-chosen write before the descriptor",
+            "text": "histories of 0..40 tiny committed bundles with semver / non-semver labels and leftovers of uploads crashed at chosen store writes (also as the newest object of the repository), squashed with retain-N 1..5 x {none, retain-tags, retain-semver-tags}; a second configuration crashes the squash itself at a chosen write and re-runs it. Oracle: the visible bundles are exactly the last N committed plus the labelled ones per option, each downloading to its content, labels exactly those of kept bundles, the most recent committed bundle always kept, the neighbouring repository byte-identical",
+            "note": "what happens to leftovers themselves is not asserted (they are not bundles); trusts simstore",
+            "components": {"real": ["pkg/core squash/delete/list/labels/upload/download"], "stub": STUB},
+            "assumptions": ["label names are chosen unambiguously semver or not"]},
     "C09": {"level": "exploration", "rule": RULE,
             "text": "(a) 2..5 clients create the same repository name concurrently under sampled orders of their create-if-absent writes (next to repositories whose names are prefixes/extensions): exactly one succeeds and the descriptor is the winner's; (b) delete / rename / delete-files on one of 2-3 repositories with prefix-related names, overlapping content and labels, with a concurrent reader of another repository: afterwards the target has no object left (delete), or the same bundle ids, files and labels under the new name and nothing under the old (rename), or every bundle downloads to its previous files minus the deleted paths (delete-files); every byte of every other repository, of the blob store and of the label store is unchanged (backend snapshot diff)",
             "note": "trusts simstore; histories built with real uploads and label sets",
